@@ -40,7 +40,8 @@ SHARD_TIMEOUT = {"quick": 300, "thorough": 1500}
 
 
 def all_cases(tier: str, seed: int):  # noqa: ANN201
-    yield from treecheck.cases("c06", tier, seed, 5000, 80000, extra=treefam.deadline_nests)
+    yield from treecheck.cases("c06", tier, seed, 5000, 80000, extra=treefam.deadline_nests,
+                               uvloop=False)
 
 
 def shards(tier: str, seed: int) -> list[dict]:
